@@ -159,7 +159,11 @@ cdef class LegacyRecordBatch:
             Py_ssize_t length = 0
             char* buf
         buf = <char*> self._buffer.buf
+        if buffer_len == 0:
+            raise CorruptRecordException(
+                "Compressed message contains no inner messages")
         while pos < buffer_len:
+            self._check_bounds(pos, LOG_OVERHEAD)
             length = <Py_ssize_t> hton.unpack_int32(&buf[pos + LENGTH_OFFSET])
             if length < RECORD_OVERHEAD_V0_DEF:
                 raise CorruptRecordException(
